@@ -49,7 +49,15 @@ class List(Expression):
         LEN = Code('len')
         staging = out.var('staging', [])
 
+        # A bound that is only known at run time may be zero, so it has to be
+        # tested before an element is parsed.
+        runtime_max = self.max_len is not None and not str(self.max_len).isdigit()
+
         with out.WHILE(True):
+            if runtime_max:
+                with out.IF(LEN(staging) == Code(self.max_len)):
+                    out += BREAK
+
             if self.expr.can_partially_succeed():
                 checkpoint = out.var('checkpoint', POS)
 
@@ -60,7 +68,7 @@ class List(Expression):
 
             out += staging.append(RESULT)
 
-            if self.max_len is not None:
+            if self.max_len is not None and not runtime_max:
                 with out.IF(LEN(staging) == Code(self.max_len)):
                     out += BREAK
 
